@@ -147,6 +147,7 @@ func (a *errCloseAgent) Close() error {
 type clientExec struct {
 	tickDone chan struct{} // L2: the collector call that is (or was) suspended in Write
 	blocked  int
+	startRet chan error // L2: a Start that is suspended in its first Write
 	c       *stun.Client
 	conn    *clConn
 	coll    *manualCollector
@@ -344,7 +345,43 @@ func (e *executor) clientOp(t []string) (string, bool) {
 		}
 		x.blocked--
 		x.conn.releaseCh <- t[2] == "ok"
+		if x.startRet != nil { // the suspended call is a Start
+			var err error
+			select {
+			case err = <-x.startRet:
+			case <-time.After(10 * time.Second):
+				return "start-hang", true
+			}
+			x.startRet = nil
+			return fmt.Sprintf("sret=%s %s blocked=%d", clientErr(err), x.outs(), x.blocked), true
+		}
 		return x.awaitTick(), true
+	case t[1] == "startb" && len(t) == 5:
+		// Start on its own goroutine; its first Write blocks until `release`
+		if x.blocked > 0 {
+			return "bad-op", true
+		}
+		m := &stun.Message{Raw: unhex(t[3])}
+		copy(m.TransactionID[:], unhex(t[2]))
+		x.conn.mu.Lock()
+		x.conn.blockIDs = append(x.conn.blockIDs, unhex(t[2]))
+		x.conn.mu.Unlock()
+		ret := make(chan error, 1)
+		h := x.handler("h" + t[4])
+		go func() { ret <- x.c.Start(m, h) }()
+		select {
+		case err := <-ret: // Start returned without writing (closed client, duplicate id)
+			x.conn.mu.Lock()
+			x.conn.blockIDs = nil
+			x.conn.mu.Unlock()
+			return fmt.Sprintf("ret=%s %s blocked=%d", clientErr(err), x.outs(), x.blocked), true
+		case <-x.conn.blockedCh:
+			x.blocked++
+			x.startRet = ret
+			return fmt.Sprintf("ret=pending %s blocked=%d", x.outs(), x.blocked), true
+		case <-time.After(10 * time.Second):
+			return "start-hang", true
+		}
 	case t[1] == "clock" && len(t) == 3:
 		x.clock.set(int64(atoi(t[2])))
 		return "ok", true
@@ -577,6 +614,11 @@ func (x *clientExec) drain() {
 	for x.blocked > 0 {
 		x.blocked--
 		x.conn.releaseCh <- false
+		if x.startRet != nil {
+			<-x.startRet
+			x.startRet = nil
+			continue
+		}
 		select {
 		case <-x.tickDone:
 		case <-x.conn.blockedCh:
